@@ -9,6 +9,11 @@ import json, os, subprocess, sys, time
 
 BEN = "/verif/benign"
 ALL = ["C%02d" % i for i in range(1, 20)]
+# --auto: the checks whose oracles look at the code a patch of that area touches (all whole-request oracles share
+# Trace_Req, so C02 - the broadest corpus - stands for them; the function-level ones are per area)
+AUTO = {"A": ["C02", "C13", "C15", "C12", "C08", "C09", "C10", "C11"],
+        "B": ["C02", "C13", "C14", "C15", "C17", "C18", "C07"],
+        "C": ["C02", "C13", "C06", "C16", "C08", "C17"]}
 
 
 def sh(cmd, timeout=7200):
@@ -19,9 +24,13 @@ def sh(cmd, timeout=7200):
 def main():
     args = sys.argv[1:]
     props = ALL
+    auto = False
     if args and args[0] == "--props":
         props = args[1].split(",")
         args = args[2:]
+    elif args and args[0] == "--auto":
+        auto = True
+        args = args[1:]
     names = args or sorted(d for d in os.listdir(BEN) if os.path.isdir(os.path.join(BEN, d)))
     resp = os.path.join(BEN, "RESULTS.json")
     results = json.load(open(resp)) if os.path.exists(resp) else {}
@@ -40,15 +49,17 @@ def main():
             rc, o = sh("cd %s && CARGO_NET_OFFLINE=true cargo test --offline --lib 2>&1 | tail -3" % wt)
             res = results.get(name, {})
             res["suite"] = o.strip().splitlines()[-1] if o.strip() else ""
-            for p in props:
+            for p in (AUTO.get(name[0], ALL) if auto else props):
+                if p in res and isinstance(res[p], dict) and res[p].get("exit") == 0:
+                    continue
                 t = time.time()
                 rc, o = sh("cd /verif && VERIF_REPO=%s bin/check %s quick" % (wt, p))
                 viol = [l for l in o.splitlines() if l.startswith("VIOLATION")]
                 res[p] = {"exit": rc, "violations": len(viol), "wall_s": round(time.time() - t, 1),
                           "tail": "" if rc == 0 else o[-1500:]}
                 print(name, p, "exit", rc, "violations", len(viol), "%.0fs" % (time.time() - t), flush=True)
-            results[name] = res
-            json.dump(results, open(resp, "w"), indent=1)
+                results[name] = res
+                json.dump(results, open(resp, "w"), indent=1)
     finally:
         sh("git -C /repo worktree remove --force %s" % wt)
     return 0
